@@ -836,3 +836,31 @@ def negate(t: ast.AST) -> ast.AST:
         return ast.fix_missing_locations(ast.copy_location(ast.Compare(left=copy.deepcopy(t.left), ops=[flip[type(t.ops[0])]()],
                                                                         comparators=copy.deepcopy(t.comparators)), t))
     return ast.fix_missing_locations(ast.copy_location(ast.UnaryOp(op=ast.Not(), operand=copy.deepcopy(t)), t))
+
+
+def degree_set(e: ast.AST, sym: str, defs: dict, depth: int = 0) -> Optional[set]:
+    """The set of homogeneity degrees in `sym` of the additive terms of e ({1}: linear and homogeneous; {0, 1}: affine with
+    a constant offset; {2}: quadratic ...).  None when some construct is not understood."""
+    if depth > 12:
+        return None
+    if isinstance(e, ast.BinOp) and isinstance(e.op, (ast.Add, ast.Sub)):
+        l, r = degree_set(e.left, sym, defs, depth + 1), degree_set(e.right, sym, defs, depth + 1)
+        return None if l is None or r is None else l | r
+    if isinstance(e, ast.BinOp) and isinstance(e.op, (ast.Mult, ast.MatMult)):
+        l, r = degree_set(e.left, sym, defs, depth + 1), degree_set(e.right, sym, defs, depth + 1)
+        return None if l is None or r is None else {a + b for a in l for b in r}
+    if isinstance(e, ast.BinOp) and isinstance(e.op, ast.Div):
+        l, r = degree_set(e.left, sym, defs, depth + 1), degree_in(e.right, sym, defs, depth + 1)
+        return None if l is None or r is None else {a - r for a in l}
+    if isinstance(e, ast.Name) and e.id != sym and e.id in defs:
+        return degree_set(defs[e.id], sym, defs, depth + 1)
+    if isinstance(e, ast.UnaryOp):
+        return degree_set(e.operand, sym, defs, depth + 1)
+    if isinstance(e, ast.Subscript):
+        return degree_set(e.value, sym, defs, depth + 1)
+    mm = matmul_operands(e) if isinstance(e, ast.Call) else None
+    if mm is not None:
+        l, r = degree_set(mm[0], sym, defs, depth + 1), degree_set(mm[1], sym, defs, depth + 1)
+        return None if l is None or r is None else {a + b for a in l for b in r}
+    d = degree_in(e, sym, defs, depth)
+    return None if d is None else {d}
